@@ -316,3 +316,82 @@ func fuzzViolation(prop, lane string, c interface{}, o Outcome) {
 	r := ev.New(prop, "")
 	r.Violation(replayFile{Property: prop, Lane: lane, Sig: o.Sig, Message: o.Fail, Case: js})
 }
+
+// EnumLane is a bounded-exhaustive sub-check: the cases are the values At(0..N-1)
+// of a finite, explicitly enumerated domain instead of draws from a generator.
+// The thorough tier runs every index (split over shards by i mod nshards); the
+// quick tier runs the first Head indexes (the short cases) and, of the rest, the
+// residue class  i mod QuickStride == VERIF_SEED mod QuickStride,  so that the
+// quick tier is a pure function of the seed and successive seeds cover the domain.
+type EnumLane[C any] struct {
+	Name        string
+	N           int
+	At          func(i int) C
+	Run         func(C) Outcome
+	Head        int // indexes below Head are always run
+	QuickStride int // quick tier: 1/QuickStride of the indexes >= Head (0: all, <0: lane not run in the quick tier)
+	ThorStride  int // thorough tier: 1/ThorStride of the indexes >= Head (0 or 1: all)
+	Journal     bool
+}
+
+func runEnum[C any](s *suite, l EnumLane[C]) {
+	if !wantLane(l.Name) {
+		return
+	}
+	if rp := os.Getenv("VERIF_REPLAY"); rp != "" {
+		runLane(s, Lane[C]{Name: l.Name, Run: l.Run})
+		return
+	}
+	runLane(s, Lane[C]{Name: l.Name, Run: l.Run}) // corpus files of this lane, no search
+	sh, ns := shard()
+	stride := l.QuickStride
+	if ev.Tier() == "thorough" {
+		stride = l.ThorStride
+	}
+	if stride < 0 {
+		return // not run in this tier
+	}
+	if stride < 1 {
+		stride = 1
+	}
+	res := int(uint64(ev.Seed()) % uint64(stride))
+	jpath := os.Getenv("VERIF_JOURNAL")
+	ran, inconcl, k := 0, 0, 0
+	for i := 0; i < l.N; i++ {
+		if i >= l.Head && i%stride != res {
+			continue
+		}
+		k++
+		if k%ns != sh {
+			continue
+		}
+		c := l.At(i)
+		if l.Journal && jpath != "" {
+			js, _ := json.Marshal(c)
+			b, _ := json.Marshal(replayFile{Property: s.id, Lane: l.Name, Sig: "process-death", Message: "the test process died while this case was running", Case: js})
+			_ = os.WriteFile(jpath, b, 0o644)
+		}
+		o := l.Run(c)
+		ran++
+		s.rec.Case(c, o.NonTrivial, append([]string{"lane:" + l.Name}, o.Classes...)...)
+		if o.Inconcl != "" {
+			inconcl++
+			r := o.Inconcl
+			if len(r) > 48 {
+				r = r[:48]
+			}
+			s.rec.Class("inconclusive:"+r, 1)
+			continue
+		}
+		if o.Fail != "" {
+			// enumeration visits short cases first, so the first failure is already small
+			s.violation(l.Name, c, o)
+			s.t.Errorf("[%s] index %d: [%s] %s", l.Name, i, o.Sig, o.Fail)
+			break
+		}
+	}
+	if inconcl > 0 {
+		s.rec.Class(l.Name+":inconclusive", int64(inconcl))
+	}
+	s.rec.Extra("enum_"+l.Name, map[string]interface{}{"domain_size": l.N, "always_run_below": l.Head, "stride": stride, "residue": res, "ran_in_this_shard": ran, "complete": stride == 1})
+}
